@@ -3,6 +3,7 @@
 set -e
 cd "$(dirname "$0")"
 export GOFLAGS=-mod=mod GOPROXY=off GOSUMDB=off GOTOOLCHAIN=local GOWORK=off
+mkdir -p coq/Generated
 (cd coq && coq_makefile -f _CoqProject -o Makefile >/dev/null 2>&1 && timeout 3000 make -j16 >/dev/null 2>make.log || { tail -30 make.log; exit 1; })
 (cd ocaml && ./build.sh)
 (cd harness && go build -tags verif -o /dev/null . )
